@@ -14,6 +14,7 @@ import BV.C05.Lemmas9
 import BV.C05.Lemmas14
 import BV.C05.Lemmas15
 import BV.C05.Lemmas16
+import BV.C05.Lemmas17
 import BV.Generated.C05
 namespace BV.C05
 open Treap
@@ -392,6 +393,20 @@ theorem block_log_history_faithful (net maxFile : Nat) (bs : List Bytes) :
     (fun p hp => by cases hp)
   simp only [List.append_nil] at this
   exact ⟨this.1, fun p hp => (this.2 p hp).2⟩
+
+/-- `reconcile_truncate_restores`: cutting the block files back to a write cursor `(f, o)` (what
+`handleRollback` does after a failed commit and what `reconcileDB` does with surplus data after a
+crash) yields a well-formed log whose cursor is the end of valid data, and every record that ends at
+or before the cursor — i.e. every block the metadata of that moment refers to — still reads back
+exactly as before. With `prefix_durable` (metadata is a prefix whose block data was synced) and
+`block_log_history_faithful` this is the byte-faithfulness of everything visible after a crash. -/
+theorem reconcile_truncate_restores (net : Nat) (st : LogSt) (f o : Nat)
+    (ho : o ≤ (st.file f).length) :
+    LogOk (logTruncate st f o) ∧
+    ∀ n off len, (n < f ∨ (n = f ∧ off + len ≤ o)) → off + len ≤ (st.file n).length →
+      readRecord crc32c net ((logTruncate st f o).file n) off len =
+        readRecord crc32c net (st.file n) off len :=
+  Lemmas.logTruncate_ok crc32c net st f o ho
 
 /-- regions are sub-slices of the stored block -/
 theorem block_region_subslice (net : Nat) (pre b post : Bytes) (off n : Nat) (h : off + n ≤ b.length) :
